@@ -70,7 +70,8 @@ def rand_tree(rng, name, n):
         lab = rng.choice(ALPH)
         if any(c.data == lab for c in p.children):
             continue
-        nodes.append(p.add(lab))
+        # `nids`: both input trees number their nodes 1, 2, 3, ... themselves (as two from_dict() results of related specs do)
+        nodes.append(p.add(lab, node_id=len(nodes)) if MODE.get("nids") else p.add(lab))
     return t
 
 
@@ -140,6 +141,7 @@ def make_pair(case):
     rng = rng_for(case["seed"], "c11-pair")
     MODE["alph"] = {0: ALPH, 1: ALPH, 2: ALPH_MIXED, 3: ALPH_OBJ}[case["seed"] % 4]
     MODE["sub"] = case["seed"] % 5 == 0
+    MODE["nids"] = case["seed"] % 7 == 0 and case["mode"] != "same"
     t0 = rand_tree(rng, "T0", rng.randint(0, 14))
     mode = case["mode"]
     if mode == "same":
